@@ -397,14 +397,19 @@ def r04_4(ctx, rep):
                         elif isinstance(v, ast.Subscript) and isinstance(v.slice, ast.Slice) and v.slice.lower is None and v.slice.upper is None:
                             src = v.value
                         if src is not None:
-                            rebound[st.targets[0].attr] = (norm(st.targets[0].value), norm(src))
+                            rebound[st.targets[0].attr] = (norm(st.targets[0].value), norm(src), src)
         for f in sorted(shared):
             ok = f in rebound
             why = "not re-bound to a copy"
             if ok:
-                owner, src = rebound[f]
+                owner, src, src_node = rebound[f]
                 own_copy = src == "%s.%s" % (owner, f)
-                clause_copy = src.endswith("clause.%s" % f) or src.endswith("comp_clause.%s" % f)
+                # the clause object: a local bound to self.ast[<ctx parameter>], or self.comp_clause
+                ctxp = h.args.args[1].arg if len(h.args.args) > 1 else "ctx"
+                clause_vars = {a.targets[0].id for a in walk_local(h) if isinstance(a, ast.Assign) and isinstance(a.targets[0], ast.Name)
+                               and norm(a.value) == "self.ast[%s]" % ctxp}
+                clause_copy = isinstance(src_node, ast.Attribute) and src_node.attr == f and (
+                    (isinstance(src_node.value, ast.Name) and src_node.value.id in clause_vars) or dotted(src_node.value) == "self.comp_clause")
                 ok = own_copy or (clause_copy and f not in per_symbol)
                 why = "copied from `%s`, but a declarator can carry its own `%s` (set in exitDeclaration): the copy must be of %s.%s" % (src, f, owner, f)
             rep.ob(R, site, "field " + f, ok,
